@@ -2,7 +2,7 @@ import BadgerModel.Key
 /-!
 # Source iterators (`y.Iterator` as provided by table iterators / skiplist `UniIterator`s)
 
-An `Entry` is an internal key (user key ++ 8 byte inverted timestamp) plus an opaque value
+An `ItEntry` is an internal key (user key ++ 8 byte inverted timestamp) plus an opaque value
 payload.  A *source* is the abstract behaviour every leaf iterator that is handed to
 `table.NewMergeIterator` has: a cursor over a list of entries that is strictly sorted under
 `y.CompareKeys`; forward sources walk the list front to back, reverse sources back to front;
@@ -15,7 +15,7 @@ table) is `AnyIter`.
 -/
 namespace Badger
 
-structure Entry where
+structure ItEntry where
   key : Bytes
   val : Bytes
 deriving DecidableEq, Repr, Inhabited
@@ -53,7 +53,7 @@ namespace IterOps
 variable {σ : Type} (o : IterOps σ)
 
 /-- The entry under the cursor, `none` when `!Valid()`. -/
-def cur (s : σ) : Option Entry := if o.valid s then some ⟨o.key s, o.value s⟩ else none
+def cur (s : σ) : Option ItEntry := if o.valid s then some ⟨o.key s, o.value s⟩ else none
 
 def apply (s : σ) : IterOp → σ
   | .rewind => o.rewind s
@@ -64,7 +64,7 @@ def apply (s : σ) : IterOp → σ
 def run (s : σ) (ops : List IterOp) : σ := ops.foldl o.apply s
 
 /-- What the consumer loop `for ; it.Valid() && steps < n; it.Next()` collects. -/
-def collect : Nat → σ → List Entry
+def collect : Nat → σ → List ItEntry
   | 0, _ => []
   | n + 1, s => if o.valid s then ⟨o.key s, o.value s⟩ :: collect n (o.next s) else []
 end IterOps
@@ -76,9 +76,9 @@ def next (it : AnyIter) : AnyIter := { it with st := it.ops.next it.st }
 def valid (it : AnyIter) : Bool := it.ops.valid it.st
 def key (it : AnyIter) : Bytes := it.ops.key it.st
 def value (it : AnyIter) : Bytes := it.ops.value it.st
-def cur (it : AnyIter) : Option Entry := it.ops.cur it.st
+def cur (it : AnyIter) : Option ItEntry := it.ops.cur it.st
 def run (it : AnyIter) (ops : List IterOp) : AnyIter := { it with st := it.ops.run it.st ops }
-def collect (n : Nat) (it : AnyIter) : List Entry := it.ops.collect n it.st
+def collect (n : Nat) (it : AnyIter) : List ItEntry := it.ops.collect n it.st
 end AnyIter
 
 /-! ## Slice-backed source -/
@@ -86,17 +86,17 @@ end AnyIter
 /-- `items`: all entries in ascending `compareKeys` order; `rest`: entries from the cursor
     on, in iteration order (so `rest = []` iff `!Valid()`). -/
 structure Source where
-  items : List Entry
+  items : List ItEntry
   reverse : Bool
-  rest : List Entry
+  rest : List ItEntry
 deriving Repr
 
 namespace Source
 
-def mk' (items : List Entry) (reverse : Bool) : Source := ⟨items, reverse, []⟩
+def mk' (items : List ItEntry) (reverse : Bool) : Source := ⟨items, reverse, []⟩
 
 /-- All entries in iteration order. -/
-def dirItems (s : Source) : List Entry := if s.reverse then s.items.reverse else s.items
+def dirItems (s : Source) : List ItEntry := if s.reverse then s.items.reverse else s.items
 
 def rewind (s : Source) : Source := { s with rest := s.dirItems }
 
